@@ -14,6 +14,14 @@
 //!   filefmt <relpath> <hexjson> as `legacy`
 //!   filter <k> <mol> <siglist> Signature::load_signatures / signatures_load_buffer on save(siglist)
 //!   loadvec|loadtree <hexjson> serde_json::from_slice::<KmerMinHash | KmerMinHashBTree>
+//!   big <ffi|writer> <level> <desc>   LARGE signatures (6000-40000 hashes per sketch, > 128 KiB of JSON),
+//!                              described by a generator (`desc`, see `big_sigs`) instead of listed: saved by
+//!                              signatures_save_buffer(level) (`ffi`) or Signature::to_writer / serde_json::
+//!                              to_writer into niffler's gzip writer at that level (`writer`), gunzipped by the
+//!                              system gzip and compared with the plain text, read by a generic JSON reader
+//!                              (serde_json::Value), loaded back through Signature::from_reader AND
+//!                              signatures_load_buffer; the answer is `gz|plain eq|ne <digest>` with one digest
+//!                              entry per (signature, sketch) when all three readings agree
 //! plus the non-protocol mode `dump` used by translator/c06.py.
 //!
 //! sigspec grammar (no whitespace):
@@ -858,6 +866,187 @@ fn read_data(rel: &str) -> (Vec<u8>, Vec<u8>) {
     (raw, plain)
 }
 
+// ------------------------------------------------------------------------------------------ big signatures
+
+fn lcg_next(x: u64) -> u64 {
+    x.wrapping_mul(6364136223846793005).wrapping_add(1442695040888963407)
+}
+
+/// `desc := sig ('+' sig)*`, `sig := hex(name) ';' sketch ('|' sketch)*`,
+/// `sketch := ('v'|'t') ':' n ':' track ':' seed ':' scaled ':' ksize`: `new(scaled, ksize, dna, 42, track, 0)`
+/// fed (in ascending order, one add_many / add_many_with_abund call) the `n` values of the LCG started at
+/// `seed`, abundance `1 + h % 3`
+fn big_sigs(desc: &str) -> Vec<Signature> {
+    desc.split('+')
+        .map(|g| {
+            let (name, sks) = g.split_once(';').unwrap();
+            let sketches: Vec<Sketch> = sks
+                .split('|')
+                .map(|d| {
+                    let f: Vec<&str> = d.split(':').collect();
+                    let p = |i: usize| -> u64 { f[i].parse().unwrap() };
+                    let (n, track, seed, scaled, ksize) = (p(1), f[2] == "1", p(3), p(4), p(5) as u32);
+                    let mut x = seed;
+                    let mut hs: Vec<u64> = (0..n)
+                        .map(|_| {
+                            x = lcg_next(x);
+                            x
+                        })
+                        .collect();
+                    hs.sort_unstable();
+                    if f[0] == "t" {
+                        let mut m = KmerMinHashBTree::new(scaled, ksize, HashFunctions::Murmur64Dna, 42, track, 0);
+                        if track {
+                            m.add_many_with_abund(&hs.iter().map(|h| (*h, 1 + h % 3)).collect::<Vec<_>>()).unwrap();
+                        } else {
+                            m.add_many(&hs).unwrap();
+                        }
+                        Sketch::LargeMinHash(m)
+                    } else {
+                        let mut m = KmerMinHash::new(scaled, ksize, HashFunctions::Murmur64Dna, 42, track, 0);
+                        if track {
+                            m.add_many_with_abund(&hs.iter().map(|h| (*h, 1 + h % 3)).collect::<Vec<_>>()).unwrap();
+                        } else {
+                            m.add_many(&hs).unwrap();
+                        }
+                        Sketch::MinHash(m)
+                    }
+                })
+                .collect();
+            let mut g = default_sig(vec![]);
+            g.name = Some(uhs(name));
+            let mut sig = build(&g);
+            for k in sketches {
+                sig.push(k);
+            }
+            sig
+        })
+        .collect()
+}
+
+fn digest_fields(name: &Option<String>, ksize: u64, num: u64, mh: u64, mins: &[u64], abunds: Option<&[u64]>, md5: &str) -> String {
+    let x = mins.iter().fold(0u64, |x, h| x ^ h);
+    let ab = match abunds {
+        None => "s=~,m=~".to_string(),
+        Some(a) => {
+            let s: u128 = a.iter().map(|v| *v as u128).sum();
+            let m = mins.iter().zip(a.iter()).fold(0u64, |x, (h, a)| x ^ h.wrapping_mul(a.wrapping_mul(2).wrapping_add(1)));
+            format!("s={},m={}", s, m)
+        }
+    };
+    format!("{}/k={},num={},mh={},n={},x={},{},md5={}", hopt(name), ksize, num, mh, mins.len(), x, ab, md5)
+}
+
+/// one entry per (signature, sketch), read through the accessors of the loaded sketches
+fn digest_sigs(l: &[Signature]) -> String {
+    let mut v = vec![];
+    for g in l {
+        for k in g.sketches() {
+            v.push(match &k {
+                Sketch::MinHash(m) => digest_fields(&Some(g.name()), m.ksize() as u64, m.num() as u64, m.max_hash(), &m.mins(), m.abunds().as_deref(), &m.md5sum()),
+                Sketch::LargeMinHash(m) => digest_fields(&Some(g.name()), m.ksize() as u64, m.num() as u64, m.max_hash(), &m.mins(), m.abunds().as_deref(), &m.md5sum()),
+                _ => format!("{}/h", hopt(&Some(g.name()))),
+            });
+        }
+    }
+    if v.is_empty() { "-".into() } else { v.join("|") }
+}
+
+/// the same digest taken from the written TEXT by a generic JSON reader (serde_json::Value): the keys the
+/// format publishes, nothing of the crate's Deserialize impls
+fn digest_doc(text: &[u8]) -> String {
+    let v: serde_json::Value = match serde_json::from_slice(text) {
+        Ok(v) => v,
+        Err(_) => return "unparsable".into(),
+    };
+    let mut out = vec![];
+    let nums = |j: &serde_json::Value| -> Option<Vec<u64>> { j.as_array()?.iter().map(|x| x.as_u64()).collect() };
+    for g in v.as_array().map(|a| a.as_slice()).unwrap_or(&[]) {
+        let name = g.get("name").and_then(|n| n.as_str()).map(|s| s.to_string());
+        for k in g.get("signatures").and_then(|a| a.as_array()).map(|a| a.as_slice()).unwrap_or(&[]) {
+            let u = |key: &str| k.get(key).and_then(|x| x.as_u64());
+            let (Some(ksize), Some(num), Some(mh), Some(mins)) = (u("ksize"), u("num"), u("max_hash"), k.get("mins").and_then(nums)) else {
+                out.push("bad-sketch".to_string());
+                continue;
+            };
+            let ab = k.get("abundances").and_then(nums);
+            let md5 = k.get("md5sum").and_then(|x| x.as_str()).unwrap_or("?");
+            out.push(digest_fields(&name, ksize, num, mh, &mins, ab.as_deref(), md5));
+        }
+    }
+    if out.is_empty() { "-".into() } else { out.join("|") }
+}
+
+fn niffler_level(level: u8) -> niffler::compression::Level {
+    use niffler::compression::Level::*;
+    match level {
+        1 => One,
+        2 => Two,
+        3 => Three,
+        4 => Four,
+        5 => Five,
+        6 => Six,
+        7 => Seven,
+        8 => Eight,
+        _ => Nine,
+    }
+}
+
+fn big_step(route: &str, level: u8, desc: &str) -> String {
+    let sigs = big_sigs(desc);
+    let plain = match save_plain(&sigs) {
+        Ok(b) => b,
+        Err(e) => return e,
+    };
+    let z: Vec<u8> = match route {
+        "ffi" => match ffi_save(&sigs, level) {
+            Some(z) => z,
+            None => return "ffi-save-failed".into(),
+        },
+        "writer" => {
+            let mut buf = vec![];
+            {
+                let mut w = match niffler::get_writer(Box::new(&mut buf), niffler::compression::Format::Gzip, niffler_level(level)) {
+                    Ok(w) => w,
+                    Err(_) => return "err NifflerError".into(),
+                };
+                let r = if sigs.len() == 1 {
+                    sigs[0].to_writer(&mut w).map_err(|e| err_name(&e))
+                } else {
+                    serde_json::to_writer(&mut w, &sigs).map_err(|_| "err SerdeError".to_string())
+                };
+                if let Err(e) = r {
+                    return e;
+                }
+            }
+            buf
+        }
+        _ => return "bad-op".into(),
+    };
+    let isgz = z.starts_with(&[0x1f, 0x8b]);
+    let un = if isgz { gunzip(&z) } else { Some(z.clone()) };
+    let eq = un.as_deref() == Some(&plain[..]);
+    let doc = match &un {
+        Some(t) => digest_doc(t),
+        None => "gunzip-failed".into(),
+    };
+    let rdr = match Signature::from_reader(&z[..]) {
+        Ok(l) => digest_sigs(&l),
+        Err(e) => err_name(&e),
+    };
+    let ffi = match ffi_load(&z, 0, None) {
+        Some(l) => digest_sigs(&l),
+        None => "ffi-load-failed".into(),
+    };
+    let head = format!("{} {}", if isgz { "gz" } else { "plain" }, if eq { "eq" } else { "ne" });
+    if doc == rdr && rdr == ffi {
+        format!("{} {}", head, rdr)
+    } else {
+        let cut = |s: &str| -> String { s.chars().take(300).collect() };
+        format!("{} readings-differ len={} doc={} rdr={} ffi={}", head, un.map(|u| u.len()).unwrap_or(0), cut(&doc), cut(&rdr), cut(&ffi))
+    }
+}
+
 fn step(_: &mut (), ws: &[&str]) -> String {
     match ws[0] {
         "case" => "ok".into(),
@@ -934,6 +1123,7 @@ fn step(_: &mut (), ws: &[&str]) -> String {
             };
             format!("{} {} {}", if isgz { "gz" } else { "plain" }, if eq { "eq" } else { "ne" }, back)
         }
+        "big" => big_step(ws[1], ws[2].parse().unwrap(), ws[3]),
         "load" => show_load(Signature::from_reader(&unhex(ws[1])[..])),
         "legacy" => show_fmt(Signature::from_reader(&unhex(ws[1])[..])),
         "file" | "filefmt" => {
@@ -1739,6 +1929,39 @@ fn gen(a: &Args) {
         g.sketches = (0..nsk).map(|_| Sk::Mh(rlife(&mut r).0)).collect();
         let gz = if i % 5 == 0 { Some(r.range(0, 9)) } else { None };
         emit_life_ops(&mut o, g, gz);
+    }
+    // stream 7: LARGE signatures (6000-40000 hashes per sketch: 130 KiB - 1.3 MiB of JSON), with and without
+    // abundances, both containers, several sketches / signatures, through signatures_save_buffer at levels
+    // 0, 1, 5, 9 and through to_writer + niffler's gzip writer; digest answers
+    for round in 0..(if thorough { 10 } else { 1 }) {
+        let mut sd = |r: &mut Rng| r.range(1, 1 << 40);
+        let n = |r: &mut Rng, lo: u64, hi: u64| if round == 0 { lo } else { r.range(lo, hi) };
+        let descs: Vec<(String, Vec<(&str, u64)>)> = vec![
+            (format!("6269673a;v:{}:0:{}:1:31", n(&mut r, 7000, 9000), sd(&mut r)), vec![("ffi", 0), ("ffi", 1), ("ffi", 5), ("ffi", 9), ("writer", 6)]),
+            (format!("6269673b;t:{}:1:{}:1:21", n(&mut r, 6000, 8000), sd(&mut r)), vec![("ffi", 0), ("ffi", 1), ("ffi", 5), ("ffi", 9), ("writer", 1)]),
+            (
+                format!(
+                    "61;v:{}:1:{}:1:21|t:{}:0:{}:1:31+62;v:{}:0:{}:1:21",
+                    n(&mut r, 12000, 20000), sd(&mut r), n(&mut r, 9000, 12000), sd(&mut r), n(&mut r, 40000, 40000), sd(&mut r)
+                ),
+                vec![("ffi", 1), ("ffi", 9), ("writer", 9)],
+            ),
+            (
+                format!(
+                    "63;v:{}:0:{}:2:21|t:{}:1:{}:2:21|v:{}:1:{}:1000:51",
+                    n(&mut r, 13000, 20000), sd(&mut r), n(&mut r, 13000, 20000), sd(&mut r), n(&mut r, 30000, 40000), sd(&mut r)
+                ),
+                vec![("ffi", 0), ("ffi", 5), ("writer", 5)],
+            ),
+            (format!("64;v:{}:1:{}:1:21", n(&mut r, 40000, 40000), sd(&mut r)), vec![("ffi", 9), ("ffi", 1), ("writer", 1)]),
+        ];
+        for (d, routes) in descs {
+            o.case("big");
+            for (route, level) in routes {
+                let level = if round == 0 || route == "ffi" && level == 0 { level } else { r.range(1, 9) };
+                o.op(&format!("big {} {} {}", route, level, d));
+            }
+        }
     }
     // stream 5: the bundled signature files
     let files = data_files();
